@@ -128,7 +128,7 @@ func main() {
 var sharedRules = map[string]map[string][]string{
 	"C02": {"C05": {"memory-mutation-last"}},
 	"C03": {"C01": {"commit-nodes"}, "C08": {"cache-coherence"}},
-	"C04": {"C03": {"history-pairing", "every-entry"}, "C09": {"cache-invalidate", "reorg"}},
+	"C04": {"C03": {"history-pairing", "every-entry"}, "C09": {"cache-invalidate", "reorg"}, "C06": {"pipeline-only"}},
 	"C05": {"C16": {"floor-first", "marker-with-history"}, "C09": {"reorg", "cache-invalidate"}, "C08": {"cache-coherence"}},
 	"C06": {"C02": {"verify-success"}},
 	"C07": {"C08": {"index-every-tx", "cache-coherence"}},
